@@ -336,6 +336,7 @@ fn run_perm_lib(ctx: &Ctx, rep: &mut Report) {
         let ix = crate::schema_ix::SchemaIx::new(&schema);
         let mut oo = OpOpts::standard();
         oo.coercing_literals = rng.coin();
+        oo.shared_names = true;
         let Some(doc) = gen_valid_doc(&mut rng, &ix, &oo) else { continue };
         // valid document or a single-fault mutant of it: the verdict must not depend on the order either way
         let (doc, faulty) = if rng.chance(1, 3) {
